@@ -1235,13 +1235,23 @@ def oracle(ctx, plan=None):
                     sens.append(_rel(lst[a][1], lst[b][1]))
     if sens:
         res.stats["min_reference_sensitivity_to_regular_order"] = float(f"{min(sens):.3e}")
+    if plan is st.get("plan"):
+        st["oracle_keys"] = {c["key"] for c in res.counterexamples}
     return res
+
+
+FMM_FINDING_KEYS = {"fmm-cache-key-quadrature-order", "fmm-ignores-explicit-parameters"}
 
 
 def search(ctx, broken):
     """a proof or the correspondence broke: look for a history on which the real code breaks the property itself"""
-    plan = _prepare(ctx, deep=True)
+    st = _state(ctx)
     res = Result()
+    found = set(st.get("oracle_keys", ())) - FMM_FINDING_KEYS
+    if found:
+        res.notes.append(f"failing input already found by the oracle on the histories of this run: {sorted(found)}")
+        return res
+    plan = _prepare(ctx, deep=True)
     c = correspondence(ctx, plan)
     res.stats["search_disagreements"] = len(c.disagreements)
     res.merge(oracle(ctx, plan))
